@@ -337,6 +337,10 @@ class Function:
             stack.extend(b.succ)
         return out
 
+    def in_cycle(self, block, avoid=()):
+        """can `block` be executed again after it was executed (without passing through `avoid` blocks)?"""
+        return any(block in self.reachable_from(s, avoid=avoid) for s in block.succ if s not in avoid)
+
     def thread_succ(self, b, pred):
         """successors of b when entered from pred: a block that branches on a phi of its own whose incoming value
         from `pred` is a constant (the CFG shape of a short-circuit `a && b` loop condition) only continues to
